@@ -10,7 +10,8 @@ MANIFEST = dict(
     text="Coq theorems (all primes, all sizes, any decomposition accepted by the matrix checker): a chain accepted by check_rep (zero boundary, "
          "youngest cell b) is, while b is unpaired among the first J cells, not homologous in K_J to any chain of older cells (C08_rep_alive); "
          "from the death cell d on it is homologous to a cycle of older cells (C08_rep_dies); representatives of alive bars with distinct births "
-         "are linearly independent modulo boundaries (C08_alive_reps_independent). Every cycle returned by get_representative_cycles / "
+         "are linearly independent modulo boundaries (C08_alive_reps_independent); the youngest cell of an accepted chain is a birth cell of "
+         "every reduced decomposition (C08_rep_birth_is_positive). Every cycle returned by get_representative_cycles / "
          "get_representative_cycle(bar) after insertions, removals and swaps, for RU and chain flavours, Z2 and Zp, all column types, is run "
          "through the extracted check_rep / check_dims (for Zp, where the API returns supports only, through a certified witness on that "
          "support), and the set of represented births is compared with the certified barcode.",
